@@ -128,6 +128,9 @@ def goal_inside(kind, goal, thr, s):
     """the goal's own isSatisfied (strict), recomputed"""
     if kind == "l1":
         return abs(s[0] - goal[0]) + abs(s[1] - goal[1]) < thr
+    if kind == "posv":
+        speed = math.sqrt(s[2] * s[2] + s[3] * s[3]) if len(s) >= 4 else 0.0
+        return goal_dist(goal, s) < thr and speed < 0.75
     return goal_dist(goal, s) < thr
 
 
@@ -953,7 +956,7 @@ def run(ck):
     for planner in PLANNERS:
         for kind in ("point", "uni", "dint", "car", "ode"):
             for envname in ("empty", "wall", "two"):
-                reps = 8 if quick else 30
+                reps = 6 if quick else 30
                 for rep in range(reps):
                     pb = std_problem(kind, r.below(8), envname, pick_goal_kind(r)) if rep % 2 == 0 else random_problem(r, kind)
                     if planner.startswith("Syclop"):
@@ -984,7 +987,7 @@ def run(ck):
     for kind in ("point", "uni", "dint", "car"):
         for envname in ("empty", "wall", "two"):
             for inter in (0, 1):
-                reps = 8 if quick else 30
+                reps = 6 if quick else 30
                 for rep in range(reps):
                     pb = std_problem(kind, rr.below(8), envname, pick_goal_kind(rr)) if rep % 2 == 0 else random_problem(rr, kind)
                     seed = rr.below(100000)
@@ -998,7 +1001,7 @@ def run(ck):
     rs3 = ck.rng.fork("sst")
     for kind in ("point", "uni", "dint", "car"):
         for envname in ("empty", "wall", "two"):
-            for rep in range(10 if quick else 30):
+            for rep in range(7 if quick else 30):
                 pb = std_problem(kind, rs3.below(8), envname, pick_goal_kind(rs3)) if rep % 2 == 0 else random_problem(rs3, kind)
                 seed = rs3.below(100000)
                 iters = rs3.choice([0, 5, 60, 500, 2000] if quick else [0, 2, 30, 300, 2000, 5000])
@@ -1010,7 +1013,7 @@ def run(ck):
     rs4 = ck.rng.fork("est")
     for kind in ("point", "uni", "dint", "car"):
         for envname in ("empty", "wall", "two"):
-            for rep in range(10 if quick else 30):
+            for rep in range(7 if quick else 30):
                 pb = std_problem(kind, rs4.below(8), envname, pick_goal_kind(rs4)) if rep % 2 == 0 else random_problem(rs4, kind)
                 seed = rs4.below(100000)
                 iters = rs4.choice([0, 5, 60, 500, 2000] if quick else [0, 2, 30, 300, 2000, 5000])
@@ -1021,7 +1024,7 @@ def run(ck):
     rs5 = ck.rng.fork("kpiece")
     for kind in ("point", "uni", "dint", "car"):
         for envname in ("empty", "wall", "two"):
-            for rep in range(10 if quick else 30):
+            for rep in range(7 if quick else 30):
                 pb = std_problem(kind, rs5.below(8), envname, pick_goal_kind(rs5)) if rep % 2 == 0 else random_problem(rs5, kind)
                 seed = rs5.below(100000)
                 iters = rs5.choice([0, 5, 60, 500, 2000] if quick else [0, 2, 30, 300, 2000, 5000])
@@ -1032,7 +1035,7 @@ def run(ck):
     rs6 = ck.rng.fork("pdst")
     for kind in ("point", "uni", "dint", "car"):
         for envname in ("empty", "wall", "two"):
-            for rep in range(10 if quick else 30):
+            for rep in range(7 if quick else 30):
                 pb = std_problem(kind, rs6.below(8), envname, pick_goal_kind(rs6)) if rep % 2 == 0 else random_problem(rs6, kind)
                 seed = rs6.below(100000)
                 iters = rs6.choice([0, 5, 60, 500, 1500] if quick else [0, 2, 30, 300, 1500, 4000])
@@ -1158,6 +1161,14 @@ def run(ck):
                 line = " ".join(["hist", planner] + pb.toks() + ["k=%d" % rh.choice([1, 2, 3]), "bias=" + B(rh.choice([0.05, 0.0, 1.0])),
                                                                  "seed=%d" % rh.below(100000), "ops"] + ops)
                 hjobs.append((planner, pb, line, "clear" in ops))
+        # a goal with an extra condition beyond its distance (speed-limited arrival of the double integrator): solve until an
+        # exact solution exists, the caller clears only the problem definition's paths, solve again (finding F160 for PDST)
+        for rep in range(2 if quick else 6):
+            pb = std_problem("dint", rh.choice([0, 2, 5]), "empty", "posv")
+            pb.thr = 2.0
+            line = " ".join(["hist", planner] + pb.toks() + ["k=1", "bias=" + B(0.05), "seed=%d" % rh.below(100000), "ops", "solve", "4000",
+                                                             "clearsol", "solve", str(rh.choice([300, 1500]))])
+            hjobs.append((planner, pb, line, False))
     for line in hist_corpus:
         t = line.split()
         hjobs.append((t[1], parse_plan_line(" ".join(["plan"] + t[1:t.index("ops")] + ["budget=0"]))[1], line, "clear" in t))
@@ -1189,18 +1200,23 @@ def run(ck):
                         key = "reported:history:%s:%s" % (planner, f["clause"])
                         ck.count(key)
                         if ck.dist[key] <= 3:
-                            ck.report({"engine": "control", "planner": planner, "clause": "history:" + f["clause"], "system": pb.sy.kind},
+                            hclass = "solve-clearsol-solve" if " clearsol " in line else ("with-clear" if has_clear else "continue")
+                            ck.report({"engine": "control", "planner": planner, "clause": "history:" + f["clause"], "system": pb.sy.kind,
+                                       "goal_kind": pb.goal_kind, "history_class": hclass, "flagged_exact": not sol["approx"],
+                                       "solve_line": out.index(ln)},
                                       script=["control", line], expected="replayOK after a continued / restarted solve: " + f["clause"],
-                                      observed=[c[:3000], f["detail"]], engine="control")
-                            ck.log("property failure (history): %s %s: %s" % (planner, f["clause"], f["detail"]))
+                                      observed=[c[:3000], f["detail"]], engine="control") and \
+                                ck.log("property failure (history): %s %s: %s" % (planner, f["clause"], f["detail"]))
                 if hdr.get("status") == "EXACT_SOLUTION" and not any((not so["approx"]) and st.get("in_goal") for so, st in sols):
                     key = "reported:history:%s:status" % planner
                     ck.count(key)
                     if ck.dist[key] <= 3:
-                        ck.report({"engine": "control", "planner": planner, "clause": "history:status-exact-without-exact-path", "system": pb.sy.kind},
-                                  script=["control", line], expected="EXACT_SOLUTION only with an exact path in the goal",
-                                  observed=[ln[:3000]], engine="control")
-                        ck.log("property failure (history): %s returned EXACT_SOLUTION without an exact path in the goal" % planner)
+                        hclass = "solve-clearsol-solve" if " clearsol " in line else ("with-clear" if has_clear else "continue")
+                        if ck.report({"engine": "control", "planner": planner, "clause": "history:status-exact-without-exact-path",
+                                      "system": pb.sy.kind, "goal_kind": pb.goal_kind, "history_class": hclass, "solve_line": out.index(ln)},
+                                     script=["control", line], expected="EXACT_SOLUTION only with an exact path in the goal",
+                                     observed=[ln[:3000]], engine="control"):
+                            ck.log("property failure (history): %s returned EXACT_SOLUTION without an exact path in the goal" % planner)
             ck.case(("hist", line), nsol > 0)
 
     # ---------------- the remaining PathControl methods (length, copy, operator=, print, printAsMatrix, random, randomValid)
